@@ -126,7 +126,7 @@ def run(ctx):
     ctx.clause("C19.8 a page finalize retried after a failure starts from an empty page buffer (what the failed attempt left is not part of the page)")
     ctx.floor("C19 writer configurations through a retried finalize", _retried_finalize(ctx), 24)
     ctx.clause("C19.7 a page load that fails inside carquet_column_read_batch (peek or read) delivers nothing and leaves the count of undelivered values unchanged")
-    ctx.floor("C19 failed-load call forms", _failed_load_keeps_rows(ctx), 2)
+    ctx.floor("C19 failed-load call forms", _failed_load_keeps_rows(ctx), 3)
     ctx.clause("C19.6 a member released on a failure path is reset before the object is used or destroyed again (rule shared with C07.5)")
     from ..rules import stalefield
     ctx.count("member_release_sites", stalefield.check(ctx, [f for f in P.lib_functions() if P.rel(f.file).startswith("src/")]))
@@ -181,7 +181,7 @@ def run(ctx):
     ctx.floor("C19 calls that may set a sticky status member", nsm, 4)
 
 
-def _failed_load_keeps_rows(ctx):
+def _failed_load_keeps_rows(ctx, fail_name="CARQUET_ERROR_OUT_OF_MEMORY", rule="R1.fail-state", key_prefix="failed-load"):
     """carquet_column_read_batch with the page loader hooked to fail (as it does when an allocation inside it fails), for the
     peek form (max_values = 0, whose result the batch reader discards) and for a real read: the call reports nothing read or an
     error, and the reader still counts the rows as undelivered - a failure that marked them consumed would let the next call
@@ -194,16 +194,17 @@ def _failed_load_keeps_rows(ctx):
     fn = P.fn_opt("carquet_column_read_batch", CR)
     if fn is None:
         raise AnalysisBroken("anchor function carquet_column_read_batch in %s not found" % CR)
-    key = "failed-load|%s:carquet_column_read_batch" % CR
-    what = ("when the page load inside carquet_column_read_batch fails, the call delivers nothing and the reader's count of undelivered values is unchanged "
-            "(peek and real read)")
+    key = "%s|%s:carquet_column_read_batch" % (key_prefix, CR)
+    what = ("when the page load inside carquet_column_read_batch fails, the call delivers only what earlier pages of the same call delivered (nothing on a peek or "
+            "a first page) and the reader's count of undelivered values drops by exactly that")
     try:
         cro = sem.field_offsets(P, "carquet_column_reader")
         phys = P.enum("carquet_physical_type")
         status = P.enum("carquet_status") if "carquet_status" in P.enums else {}
-        oom = status.get("CARQUET_ERROR_OUT_OF_MEMORY", 2)
+        fail_status = status.get(fail_name, 2)
         bad, done = None, 0
-        for label, maxv in (("peek (max_values = 0)", 0), ("read of up to 10 values", 10)):
+        for label, maxv, first_ok in (("peek (max_values = 0)", 0, 0), ("read of up to 10 values", 10, 0),
+                                      ("read of up to 10 values whose first page delivers 4 before the next load fails", 10, 4)):
             heap0 = {}
             rec = P.record("carquet_column_reader")
             for f in rec["fields"]:
@@ -214,9 +215,15 @@ def _failed_load_keeps_rows(ctx):
             heap0[("cr", cro["type"])] = phys["CARQUET_PHYSICAL_INT32"]
             calls = []
 
-            def load(ev, a, it, calls=calls):
+            def load(ev, a, it, calls=calls, first_ok=first_ok):
                 calls.append(1)
-                return oom
+                if first_ok and len(calls) == 1:
+                    # the page reader as it behaves on success: it delivers first_ok values and counts them off
+                    left_ = it.heap.get(("cr", cro["values_remaining"]))
+                    it.heap[("cr", cro["values_remaining"])] = left_ - first_ok if isinstance(left_, int) else left_
+                    sem.set_out(it, a[5], first_ok)
+                    return 0
+                return fail_status
             ret, ev, heap = sem.run(P, fn, [Ptr("cr", 0, 1), Ptr("vals", 0, 4), maxv, 0, 0], heap0=heap0, single=True, max_forks=16, budget=200000, inline_depth=3,
                                     hooks={"carquet_read_next_page": load, "carquet_error_set": lambda ev, a, it: None, "snprintf": lambda ev, a, it: 0})
             done += 1
@@ -225,12 +232,12 @@ def _failed_load_keeps_rows(ctx):
             left = heap.get(("cr", cro["values_remaining"]))
             if not isinstance(ret, int) or not isinstance(left, int):
                 raise sem.Inconclusive("%s: returns %r, values_remaining %r" % (label, ret, left))
-            if bad is None and (ret > 0 or left != 100):
-                bad = "%s: returns %d and leaves %d of 100 values to deliver%s" % (label, ret, left, " - the column now looks exhausted" if left == 0 else "")
-        ctx.ob("R1.fail-state", key, P.where(fn.body), what + " (%d call forms)" % done, bad is None, bad or "")
+            if bad is None and ((ret > first_ok) or left != 100 - first_ok):
+                bad = "%s: returns %d and leaves %d of 100 values to deliver%s" % (label, ret, left, " - the column now looks exhausted and the failure is never reported" if left == 0 else "")
+        ctx.ob(rule, key, P.where(fn.body), what + " (%d call forms)" % done, bad is None, bad or "")
         return done
     except (sem.Inconclusive, KeyError) as ex:
-        ctx.inconclusive("R1.fail-state", key, P.where(fn.body), what, "%s: %s" % (type(ex).__name__, ex))
+        ctx.inconclusive(rule, key, P.where(fn.body), what, "%s: %s" % (type(ex).__name__, ex))
         return 0
 
 
